@@ -376,71 +376,6 @@ package lfs
 //@   props C20
 //@   requires @inv opt != nil && a.Properties != nil
 //@   at call (*lfs.Attribute).set:1 assert arg1__ == opt.GitConfig && arg5__ == opt && arg3__ == v
-//@ func (*github.com/git-lfs/git-lfs/v3/git.Configuration).FindGlobal
-//@   assumed
-//@   props C20
-//@   pure
-//@   ensures result == cfg_find("global", "", key)
-//@ func (*github.com/git-lfs/git-lfs/v3/git.Configuration).SetGlobal
-//@   assumed
-//@   props C20
-//@   modifies fresh
-//@ func (*github.com/git-lfs/git-lfs/v3/git.Configuration).UnsetGlobalSection
-//@   assumed
-//@   props C20
-//@   modifies fresh
-//@ func (*github.com/git-lfs/git-lfs/v3/git.Configuration).FindSystem
-//@   assumed
-//@   props C20
-//@   pure
-//@   ensures result == cfg_find("system", "", key)
-//@ func (*github.com/git-lfs/git-lfs/v3/git.Configuration).SetSystem
-//@   assumed
-//@   props C20
-//@   modifies fresh
-//@ func (*github.com/git-lfs/git-lfs/v3/git.Configuration).UnsetSystemSection
-//@   assumed
-//@   props C20
-//@   modifies fresh
-//@ func (*github.com/git-lfs/git-lfs/v3/git.Configuration).FindLocal
-//@   assumed
-//@   props C20
-//@   pure
-//@   ensures result == cfg_find("local", "", key)
-//@ func (*github.com/git-lfs/git-lfs/v3/git.Configuration).SetLocal
-//@   assumed
-//@   props C20
-//@   modifies fresh
-//@ func (*github.com/git-lfs/git-lfs/v3/git.Configuration).UnsetLocalSection
-//@   assumed
-//@   props C20
-//@   modifies fresh
-//@ func (*github.com/git-lfs/git-lfs/v3/git.Configuration).FindWorktree
-//@   assumed
-//@   props C20
-//@   pure
-//@   ensures result == cfg_find("worktree", "", key)
-//@ func (*github.com/git-lfs/git-lfs/v3/git.Configuration).SetWorktree
-//@   assumed
-//@   props C20
-//@   modifies fresh
-//@ func (*github.com/git-lfs/git-lfs/v3/git.Configuration).UnsetWorktreeSection
-//@   assumed
-//@   props C20
-//@   modifies fresh
-//@ func (*github.com/git-lfs/git-lfs/v3/git.Configuration).FindFile
-//@   assumed
-//@   props C20
-//@   pure
-//@   ensures result == cfg_find("file", file, key)
-//@ func (*github.com/git-lfs/git-lfs/v3/git.Configuration).SetFile
-//@   assumed
-//@   props C20
-//@   modifies fresh
-//@ func (*github.com/git-lfs/git-lfs/v3/git.Configuration).UnsetFileSection
-//@   assumed
-//@   props C20
-//@   modifies fresh
 
 // C13, pointer half: which files fsck --pointers looks at and how it classes
 // them.  Every regular file of the tree is a candidate, whatever its size; a
